@@ -111,6 +111,7 @@ func (o c03Op) nr() int {
 
 // c03Gen builds a random program over a process tree; returns the script and the operations in program order
 type c03Gen struct {
+	execBias bool // programs in which processes replace their image often
 	rng     *Rng
 	nextID  int
 	nameAct map[string]string
@@ -122,8 +123,11 @@ func (g *c03Gen) seq(lineage string, depth, n int) string {
 	var parts []string
 	for i := 0; i < n; i++ {
 		r := g.rng.Intn(10)
-		if r < 3 && depth < 2 {
+		if (r < 3 || (g.execBias && r < 5)) && depth < 2 {
 			kind := []string{"fork", "vfork", "thread"}[g.rng.Intn(3)]
+			if g.execBias && g.rng.Chance(60) {
+				kind = "fork"
+			}
 			ch := map[string]string{"fork": "f", "vfork": "v", "thread": "c"}[kind]
 			lin := ch
 			if lineage != "r" {
@@ -131,7 +135,7 @@ func (g *c03Gen) seq(lineage string, depth, n int) string {
 			}
 			inner := g.seq(lin, depth+1, 1+g.rng.Intn(3))
 			// a forked process may replace its image before it goes on (the rest of its block is run by the new image)
-			if kind == "fork" && g.rng.Chance(35) {
+			if kind == "fork" && (g.execBias || g.rng.Chance(35)) {
 				inner = "exec; " + inner
 			}
 			end := map[string]string{"fork": "endfork; wait", "vfork": "endfork; wait", "thread": "endthread; join"}[kind]
@@ -284,7 +288,7 @@ func runC03(res *Result, d *Driver, tier string, seed uint64) {
 				fatal("mkdtemp: %v", err)
 			}
 			work, _ = filepath.EvalSymlinks(work)
-			g := &c03Gen{rng: rng, nameAct: map[string]string{}}
+			g := &c03Gen{rng: rng, nameAct: map[string]string{}, execBias: (i+j)%3 == 2}
 			for _, n := range c03NameTraced {
 				g.nameAct[n] = []string{"a", "a", "b", "b", "k"}[rng.Intn(5)]
 				if g.nameAct[n] == "k" && !rng.Chance(30) {
